@@ -472,6 +472,14 @@ func (o *Opts) CommandStep() *ordered.MapSA {
 	r := o.R
 	m := ordered.NewMap[string, any](8)
 	o.hist("step.command")
+	if o.MaxMapSize > 8 && r.Intn(50) == 0 {
+		// a very wide step: 64-80 unknown keys written BEFORE the kind keys, aliases and typed fields, so that every
+		// named key sits beyond the 64th position of the mapping
+		for i, n := 0, 64+r.Intn(17); i < n; i++ {
+			m.Set(fmt.Sprintf("aa_wide_%02d", i), i)
+		}
+		o.hist("step.wide-named-keys-beyond-position-64")
+	}
 	// kind keys
 	switch r.Intn(7) {
 	case 0:
